@@ -91,6 +91,8 @@ type cellSpec struct {
 	Kill      string   `json:"kill"`       // local | remote
 	CloseMode string   `json:"close_mode"` // down | race | only | failing | stalled (replacement connection never ready)
 	Late      bool     `json:"invoke_just_before_close"`
+	CloseVia  string   `json:"close_via,omitempty"`         // parent-cancel | callback-nil | callback-error
+	Origin    string   `json:"invocation_origin,omitempty"` // harness-runctx | harness-background | handler-ctx | handler-background
 	Fresh     bool     `json:"fresh_key"`
 	stages    []stage
 }
@@ -190,14 +192,17 @@ func (e *c29env) onGetUsers(srv *tgtest.Server, req *tgtest.Request) error {
 }
 
 func (e *c29env) invoke(ctx context.Context, client *telegram.Client, p *probe) {
-	go func() {
-		defer close(p.done)
-		probeCall(uint64(p.uid), func() {
-			close(p.started)
-			p.users, p.err = client.API().UsersGetUsers(ctx, []tg.InputUserClass{&tg.InputUser{UserID: p.uid, AccessHash: 1}})
-			p.retSeq = e.tick()
-		})
-	}()
+	go e.invokeSync(ctx, client, p)
+}
+
+// invokeSync runs the monitored invocation on the calling goroutine (e.g. inside an update handler).
+func (e *c29env) invokeSync(ctx context.Context, client *telegram.Client, p *probe) {
+	defer close(p.done)
+	probeCall(uint64(p.uid), func() {
+		close(p.started)
+		p.users, p.err = client.API().UsersGetUsers(ctx, []tg.InputUserClass{&tg.InputUser{UserID: p.uid, AccessHash: 1}})
+		p.retSeq = e.tick()
+	})
 }
 
 func errClass(err error) string {
@@ -795,6 +800,206 @@ func (e *c29env) runFirstConnect(spec cellSpec) (undecided string) {
 	return undecided
 }
 
+var errCallback = errors.New("harness: callback gives up")
+
+// runCloseOrigin: the client is closed by cancelling Run's parent context, by the Run callback returning nil,
+// or by the callback returning an error, while one request (unacked or acked) is pending that was issued from
+// a harness goroutine (with the callback's ctx or an independent one) or from inside an update handler (with the
+// handler's ctx or an independent one). The invocation must return and Run itself must return.
+func (e *c29env) runCloseOrigin(spec cellSpec) (undecided string) {
+	c := e.c
+	cell := &cellRun{spec: spec}
+	cnet := newChaosNet()
+	logger := newRecLogger()
+	storage := &session.StorageMemory{}
+	_ = storage.StoreSession(context.Background(), append([]byte(nil), e.boot[0]...))
+	jobs := make(chan func(ctx context.Context), 1)
+	client := telegram.NewClient(1, "hash", telegram.Options{
+		PublicKeys: e.keys, DC: 2, DCList: e.list, SessionStorage: storage, Logger: logger, NoUpdates: true,
+		Resolver:            dcs.Plain(dcs.PlainOptions{Protocol: transport.Intermediate, Dial: cnet.Dial}),
+		ReconnectionBackoff: func() backoff.BackOff { return &backoff.ZeroBackOff{} },
+		RetryInterval:       time.Hour,
+		UpdateHandler: telegram.UpdateHandlerFunc(func(ctx context.Context, _ tg.UpdatesClass) error {
+			select {
+			case job := <-jobs:
+				job(ctx) // synchronously: the connection's read loop waits for its handlers
+			default:
+			}
+			return nil
+		}),
+	})
+	parentCtx, cancelParent := context.WithCancel(context.Background())
+	callCtx, cancelCalls := context.WithCancel(context.Background())
+	cbCtxCh := make(chan context.Context, 1)
+	closeCh := make(chan error, 1)
+	runDone := make(chan struct{})
+	var runErr error
+	e.mu.Lock()
+	e.nextUID++
+	runUID := uint64(e.nextUID)
+	e.mu.Unlock()
+	go func() {
+		defer close(runDone)
+		probeCall(runUID, func() {
+			runErr = client.Run(parentCtx, func(ctx context.Context) error {
+				cbCtxCh <- ctx
+				select {
+				case err := <-closeCh:
+					return err
+				case <-ctx.Done():
+					return ctx.Err()
+				}
+			})
+		})
+	}()
+	var all []*probe
+	defer func() {
+		cancelParent()
+		if !waitCh(runDone, 5*time.Second) {
+			// Release whatever Run is waiting for.
+			cancelCalls()
+			cnet.KillAll()
+			waitCh(runDone, wdLong)
+		}
+		cancelCalls()
+		for _, p := range all {
+			waitCh(p.done, 5*time.Second)
+		}
+		cnet.KillAll()
+		e.drop(all...)
+	}()
+	var cbCtx context.Context
+	select {
+	case cbCtx = <-cbCtxCh:
+	case <-runDone:
+		return "Run returned before ready: " + fmt.Sprint(runErr)
+	case <-time.After(wdLong):
+		return "client not ready"
+	}
+	s0 := e.newProbe(cell, stSentinel)
+	all = append(all, s0)
+	e.invoke(callCtx, client, s0)
+	if !waitCh(s0.done, wdLong) || s0.err != nil {
+		return "warm-up request failed: " + fmt.Sprint(s0.err)
+	}
+	e.mu.Lock()
+	oldSess := s0.req.Session
+	cell.oldSess = oldSess.ID
+	e.mu.Unlock()
+
+	p := e.newProbe(cell, spec.stages[0])
+	all = append(all, p)
+	switch spec.Origin {
+	case "harness-runctx":
+		e.invoke(cbCtx, client, p)
+	case "harness-background":
+		e.invoke(callCtx, client, p)
+	default:
+		jobs <- func(hctx context.Context) {
+			if spec.Origin == "handler-background" {
+				hctx = callCtx
+			}
+			e.invokeSync(hctx, client, p)
+		}
+		if err := e.srv.SendUpdates(context.Background(), oldSess, &tg.UpdateNewMessage{
+			Message: &tg.Message{ID: 1, PeerID: &tg.PeerUser{UserID: 1}, Message: "probe"},
+		}); err != nil {
+			return "server could not push the update: " + err.Error()
+		}
+	}
+	if !waitCh(p.arrived, wdLong) {
+		return "request did not reach the server"
+	}
+	e.mu.Lock()
+	req := p.req
+	e.mu.Unlock()
+	if p.stage == stAcked {
+		if err := e.srv.SendAck(context.Background(), req.Session, req.MsgID); err != nil {
+			return "server could not send ack: " + err.Error()
+		}
+		if !steer(10*time.Second, func() bool { return logger.Acked(req.MsgID) }) {
+			p.stage = stAckFly
+		}
+	}
+	// Close.
+	e.mu.Lock()
+	cell.killed = true
+	e.mu.Unlock()
+	switch spec.CloseVia {
+	case "callback-nil":
+		closeCh <- nil
+	case "callback-error":
+		closeCh <- errCallback
+	default:
+		cancelParent()
+	}
+	label := spec.CloseVia + "|" + spec.Origin + "|" + p.stage.String()
+	w := map[string]any{"cell": spec, "uid": p.uid}
+	runReturned := waitCh(runDone, wdShort)
+	if !runReturned {
+		// Run does not return. Verdict only if, in two dumps one second apart, Run's goroutine sits blocked in
+		// (*Client).Run while the pending invocation is parked in invokeConn waiting for a reconnect / client close.
+		blockedRun := func() (string, bool) {
+			st, _, stack, ok := goroutineOf(runUID)
+			return stack, ok && !strings.HasPrefix(st, "run") && strings.Contains(stack, "telegram.(*Client).Run(")
+		}
+		_, r1 := blockedRun()
+		frame, pstack, desc := parkedIn(uint64(p.uid))
+		rstack, r2 := blockedRun()
+		w["run_goroutine"], w["invocation_goroutine"], w["client_log"] = rstack, pstack, logger.Ring()
+		if r1 && r2 && frame == "invokeConn" {
+			c.Eval(1)
+			c.Violate("close|run-does-not-return|"+label, w)
+			return ""
+		}
+		return "Run did not return after close (" + desc + ")"
+	}
+	c.Eval(1)
+	if spec.CloseVia == "callback-error" && !errors.Is(runErr, errCallback) {
+		c.Distinct("close-origin/run-error-lost/" + errClass(runErr))
+	}
+	if !waitCh(p.done, wdShort) {
+		frame, stack, desc := parkedIn(uint64(p.uid))
+		w["goroutine"], w["client_log"] = stack, logger.Ring()
+		if frame != "" {
+			c.Violate("close|invocation-parked-in-"+frame+"-after-client-closed|origin-"+spec.Origin, w)
+			return ""
+		}
+		return "invocation did not return (" + desc + ")"
+	}
+	n1 := e.newProbe(cell, stSentinel)
+	all = append(all, n1)
+	e.invoke(callCtx, client, n1)
+	if !waitCh(n1.done, wdShort) {
+		frame, stack, desc := parkedIn(uint64(n1.uid))
+		w["goroutine"] = stack
+		if frame != "" {
+			c.Violate("close|invocation-parked-in-"+frame+"-after-client-closed|new", w)
+			return ""
+		}
+		return "new invocation did not return (" + desc + ")"
+	}
+	e.mu.Lock()
+	execs := len(p.execs)
+	e.stageCount[p.stage.String()]++
+	e.mu.Unlock()
+	outcome := "err:" + errClass(p.err)
+	if p.err == nil {
+		outcome = "ok"
+	}
+	w["outcome"], w["executions"] = outcome, execs
+	if p.stage == stAcked && execs > 1 {
+		c.Violate("close-"+spec.CloseVia+"|acked-request-executed-again", w)
+	} else if p.err == nil {
+		// The server never answered this request on any connection it executed it on before the close... unless it was re-sent.
+		if execs < 2 {
+			c.Violate("result-without-server-execution|"+p.stage.String(), w)
+		}
+	}
+	c.Distinct(fmt.Sprintf("close-origin/%s/%s/exec%d", label, outcome, execs))
+	return ""
+}
+
 // parkedIn inspects the goroutine of a monitored invocation that did not return: two goroutine dumps,
 // one second apart, must both show it parked in a select whose innermost gotd/td frame is the same
 // waiting function (invokeConn: waiting for a replacement connection; waitSession: waiting for a
@@ -835,7 +1040,7 @@ func indexOf(xs []string, s string) int {
 func runC29(c *mon.Ctx) {
 	c.Rule("fault table {before send (write held / frame torn / bytes lost), after send (server executed, silent), after ack (ack consumed by the client, confirmed through the client's own logger), " +
 		"after result (caller returned)} x {reconnect, client close} x in-flight 1..3, enumerated completely for request 0 of every cell; the other in-flight requests take seeded stages incl. " +
-		"ack/result written right before the kill (either outcome allowed); variations: local socket close vs server-side disconnect, close after kill with network down / racing the reconnect / without kill; plus 'replacement never ready' cells (dial blocks / dials fail and the loop sits in backoff / connects and stalls) and close during the very first connect, each with a pending request, an invocation just before the close and one after Run returned, " +
+		"ack/result written right before the kill (either outcome allowed); variations: local socket close vs server-side disconnect, close after kill with network down / racing the reconnect / without kill; plus 'replacement never ready' cells (dial blocks / dials fail and the loop sits in backoff / connects and stalls) and close during the very first connect, each with a pending request, an invocation just before the close and one after Run returned; plus 'who closes' cells: {parent ctx cancelled, Run callback returns nil, callback returns an error} x pending request issued from {harness goroutine with the callback ctx / an independent ctx, inside an update handler with the handler ctx / an independent ctx} x {unacked, acked}: the invocation and Run itself must return, " +
 		"shared vs own restored key (all key exchanges happen serially before the table). Real telegram.Client over loopback TCP against tgtest; server handler logs every execution by the unique user id in users.getUsers. " +
 		"evaluation = one monitored request; distinct = (fault mode, kill side, stage, in-flight, caller outcome, server executions before+after fault)")
 	c.Assume("tgtest server is a faithful enough MTProto peer: it never acks or answers by itself for probe requests; harness dedupes a retransmit of the same msg_id in the same server session as a real server does")
@@ -956,6 +1161,17 @@ func runC29(c *mon.Ctx) {
 			}
 		}
 	}
+	// Who closes x where the pending request was issued x request state.
+	for v := 0; v < c.N(1, 10); v++ {
+		for _, via := range []string{"parent-cancel", "callback-nil", "callback-error"} {
+			for _, origin := range []string{"harness-runctx", "harness-background", "handler-ctx", "handler-background"} {
+				for _, st := range []stage{stUnacked, stAcked} {
+					cells = append(cells, cellSpec{Idx: len(cells), Point: "close-origin", After: "close", K: 1, CloseMode: "only", CloseVia: via, Origin: origin,
+						stages: []stage{st}, Stages: []string{st.String()}})
+				}
+			}
+		}
+	}
 	c.Set("cells", len(cells))
 	c.Set("cells_fault_table", nTable)
 	c.Exhaustive(true)
@@ -975,6 +1191,8 @@ func runC29(c *mon.Ctx) {
 				var why string
 				if sp.Point == "first-connect" {
 					why = env.runFirstConnect(sp)
+				} else if sp.Point == "close-origin" {
+					why = env.runCloseOrigin(sp)
 				} else {
 					why = env.runCell(sp)
 				}
